@@ -150,6 +150,8 @@ static int cmd_batch(int argc, char **argv)
         }
         if (first == 0 && k < 2)
             samples.append(to_json(plan));
+        if (violations >= 6)
+            break; // a broken tree: enough material for the report, no need to finish the batch
         if (real_now() - start > budget_s)
             break;
     }
